@@ -337,7 +337,15 @@ cdef _deserialize_map(itemlen_t dummy_version,
         subelem[itemlen_t](buf, &val_buf, &offset, numelements)
         key = from_binary(key_deserializer, &key_buf, protocol_version)
         val = from_binary(val_deserializer, &val_buf, protocol_version)
-        themap._insert_unchecked(key, None if key_buf.size < 0 else to_bytes(&key_buf), val)
+        if key_buf.size < 0:
+            flat_key = None
+        elif key_type.subtypes:
+            # lookups serialize the decoded key; a decoded set is sorted, which need
+            # not be the order of the elements on the wire
+            flat_key = key_type.to_binary(key, protocol_version)
+        else:
+            flat_key = to_bytes(&key_buf)
+        themap._insert_unchecked(key, flat_key, val)
 
     return themap
 
